@@ -241,6 +241,10 @@ def check_atomic_value(run, cls, v, ctx_numbers):
         if not same(kind, m2, m):
             run.violation("decode-differs/app/kind%d" % kind, dict(wit, octets=octets[:40], decoded=repr(m2)[:200]))
             return
+        if kind == R.OBJID and isinstance(v, tuple) and isinstance(v[0], str) and tuple(obj2.value)[0] != v[0]:
+            # the type was given by a name the class knows: it comes back under that name (tables are keyed by it)
+            run.violation("object-type-name-does-not-survive", dict(wit, octets=octets[:16], decoded=repr(tuple(obj2.value))))
+            return
         if kind == R.ENUM and isinstance(v, str) and isinstance(obj2.value, str) and obj2.value != v:
             # two names of one enumeration share a number: the name does not survive
             run.violation("enumeration-name-decodes-to-another-name", dict(wit, octets=octets[:16], decoded=obj2.value))
